@@ -20,6 +20,11 @@ import (
 // []string, []int, int.  The same rendering is applied to pattern and data,
 // so equal values stay equal and different values stay different.
 func typed(x interface{}, mode int) interface{} {
+	if mode >= 3 {
+		// mixed rendering: every node chooses for itself (deterministically from its
+		// content) whether it is a Go-typed or a plain JSON container
+		return typedMixed(x, mode)
+	}
 	switch v := x.(type) {
 	case float64:
 		if mode >= 2 && v == math.Trunc(v) {
@@ -75,10 +80,58 @@ func typed(x interface{}, mode int) interface{} {
 	return x
 }
 
+func typedMixed(x interface{}, salt int) interface{} {
+	pick := func(v interface{}) int {
+		h := 0
+		for _, c := range ref.Canon(v) {
+			h = h*31 + int(c)
+		}
+		if h < 0 {
+			h = -h
+		}
+		return (h + salt) % 3
+	}
+	switch v := x.(type) {
+	case map[string]interface{}:
+		if pick(v) == 0 {
+			m := core.Map{}
+			for k, e := range v {
+				m[k] = typedMixed(e, salt)
+			}
+			return m
+		}
+		m := map[string]interface{}{}
+		for k, e := range v {
+			m[k] = typedMixed(e, salt)
+		}
+		return m
+	case []interface{}:
+		allS := len(v) > 0
+		for _, e := range v {
+			if _, ok := e.(string); !ok {
+				allS = false
+			}
+		}
+		if allS && pick(v) != 1 {
+			a := make([]string, len(v))
+			for i, e := range v {
+				a[i] = e.(string)
+			}
+			return a
+		}
+		a := make([]interface{}, len(v))
+		for i, e := range v {
+			a[i] = typedMixed(e, salt)
+		}
+		return a
+	}
+	return x
+}
+
 func plainWithInts(x interface{}, mode int) interface{} {
 	switch v := x.(type) {
 	case float64:
-		if mode >= 2 && v == math.Trunc(v) {
+		if mode == 2 && v == math.Trunc(v) {
 			return int(v)
 		}
 	case map[string]interface{}:
@@ -179,11 +232,42 @@ func judge(r *rep.Report, c tcase) {
 	r.Violate("", what, rep.J{"case": c, "got": got, "want": want})
 }
 
+// judgeBind: Bindings.Bind (the substitution queries use before matching) must
+// replace exactly the bound variables, whatever their value (null, false, 0, ""),
+// and leave pattern and bindings untouched.
+func judgeBind(r *rep.Report, p interface{}, bs ref.B) {
+	cb := core.Bindings{}
+	for k, v := range bs {
+		cb[k] = ref.Clone(v)
+	}
+	pc, bc := ref.Canon(p), ref.Canon(map[string]interface{}(cb))
+	got := cb.Bind(nil, ref.Clone(p))
+	want := ref.Subst(ref.Norm(p), bs)
+	r.Case(len(bs) > 0, "bind"+ref.Canon([]interface{}{p, bs}))
+	r.Count("bind_cases", 1)
+	if ref.Canon(got) != ref.Canon(want) {
+		r.Violate("", "Bindings.Bind does not substitute exactly the bound variables", rep.J{"pattern": p, "bindings": bs, "got": got, "want": want})
+	}
+	if ref.Canon(map[string]interface{}(cb)) != bc || ref.Canon(p) != pc {
+		r.Violate("", "Bindings.Bind modified its pattern or its bindings", rep.J{"pattern": p, "bindings": bs})
+	}
+}
+
 func main() {
 	e := rep.GetEnv()
 	r := rep.New(e)
 	g := gen.New(e.BatchSeed())
 	n := e.Pick(12000, 150000)
+	for i := 0; i < n/10; i++ {
+		p := ref.Norm(g.PatternFrom(g.Map(2), true))
+		bs := ref.B{}
+		for v := range ref.VarsOf(p, nil) {
+			if g.Intn(3) > 0 {
+				bs[v] = []interface{}{nil, false, 0.0, "", "s1", map[string]interface{}{"k": 1.0}, []interface{}{"a"}}[g.Intn(7)]
+			}
+		}
+		judgeBind(r, p, bs)
+	}
 
 	// directed cases first (reproducers of listed findings + documentation rows)
 	judge(r, tcase{P: ref.Norm(map[string]interface{}{"a": "?x", "b": "?x"}), D: ref.Norm(map[string]interface{}{"a": map[string]interface{}{"k": 1}, "b": map[string]interface{}{"k": 1, "j": 2}})})
@@ -241,11 +325,13 @@ func main() {
 }
 
 func pickMode(g *gen.Gen) int {
-	switch g.Intn(6) {
+	switch g.Intn(8) {
 	case 0:
 		return 1
 	case 1:
 		return 2
+	case 2, 3:
+		return 3 + g.Intn(3) // mixed Go-typed / plain containers
 	}
 	return 0
 }
